@@ -76,7 +76,8 @@ def check_call(contract: Contract, call: Callable[[], Any], ns_args: Dict[str, A
     assert speclib.CTX is None
     out = Outcome()
     ns = NS(**ns_args)
-    ns.__dict__["old"] = native_snapshot(ns_args)
+    if "old" not in ns_args:
+        ns.__dict__["old"] = native_snapshot(ns_args)
     try:
         pre = contract.clauses("pre", ns)
     except Exception as e:  # a precondition that cannot be evaluated: input outside the contract's domain
@@ -105,14 +106,36 @@ def check_call(contract: Contract, call: Callable[[], Any], ns_args: Dict[str, A
         signal.signal(signal.SIGALRM, old)
     if raised is not None:
         out.observed = "raised %s: %s" % (type(raised).__name__, str(raised)[:200])
+        for xname, fn in (getattr(contract.impl, "raises_post", None) or {}).items():
+            if exc_matches(raised, xname):
+                ns.__dict__["exc"] = raised
+                try:
+                    bad = [label for label, c in fn(ns).items() if not bool(c)]
+                except Exception as e:
+                    bad = ["<evaluation: %s>" % e]
+                if bad:
+                    out.ok = False
+                    out.failed_clause = "raises-post#%s#%s" % (xname, bad[0])
+                    out.detail = "exceptional postcondition %s is false" % bad[0]
+                    return out
         matched = None
+        for xname, cond in getattr(contract, "raises_implies", {}).items():
+            if exc_matches(raised, xname):
+                # one-sided exceptional postcondition: `raise X` implies cond
+                if not bool(cond(ns)):
+                    out.ok = False
+                    out.failed_clause = "raises#%s" % xname
+                    out.detail = "raised %s although its (one-sided) condition does not hold" % xname
+                return out
         for xname in contract.raises:
             if exc_matches(raised, xname):
                 matched = xname
                 break
         if matched is None:
-            for xname, cond in getattr(contract, "raises_only_if", {}).items():
+            one_sided = list(getattr(contract, "raises_if", {}).items()) + list(getattr(contract, "raises_only_if", {}).items())
+            for xname, cond in one_sided:
                 if exc_matches(raised, xname):
+                    ns.__dict__["exc"] = raised
                     if not bool(cond(ns)):
                         out.ok = False
                         out.failed_clause = "raises#%s" % xname
@@ -129,7 +152,11 @@ def check_call(contract: Contract, call: Callable[[], Any], ns_args: Dict[str, A
             out.failed_clause = "raises#%s" % matched
             out.detail = "raised %s although its condition does not hold" % matched
         return out
-    out.observed = "returned %r" % (result,) if not isinstance(result, (list, dict)) or len(repr(result)) < 200 else "returned (large)"
+    try:
+        out.observed = "returned %r" % (result,) if not isinstance(result, (list, dict)) or len(repr(result)) < 200 else "returned (large)"
+    except Exception:  # e.g. CPython's int -> str digit limit inside a __repr__
+        out.observed = "returned <%s> (repr failed)" % type(result).__name__
+    out.observed = out.observed[:300]
     for xname, val in expected.items():
         if val:
             out.ok = False
